@@ -2,6 +2,8 @@ import Libp2pModel.Model.C14
 import Libp2pModel.Proofs.C14Sys
 import Libp2pModel.Proofs.C14Bytes
 import Libp2pModel.Proofs.C15Frame
+import Libp2pModel.Proofs.C14Reader
+import Libp2pModel.Proofs.C14Net
 /-!
 # C14 — property theorems
 
@@ -281,7 +283,38 @@ theorem listener_reads_exactly (ls pre : List Bytes) (cur : Bytes) (A : Bytes) (
     exact c2
   rw [hfin]
 
-/-! ## 5. summary -/
+/-! ## 5. byte granularity: every chunking / delivery schedule
+
+`C14.BCfg`/`bexec` (Model/C14_Net.lean) is the negotiation with BYTE channels: a poll of a side
+finds an arbitrary prefix of the unconsumed bytes readable.  `pollNext` (Model/C14_Reader.lean) is
+`LengthDelimited::poll_next` as the incremental state machine it is (one length byte per read,
+exact-length payload reads, arbitrary `poll_read` return sizes). -/
+
+-- `C14.pollNext_refines` (Proofs/C14Reader.lean): the incremental reader refines the batch decoder
+-- `frameDec` from every state, for every chunk-size behaviour of the stream;
+-- `C14.reader_chunk_independent`: hence the REAL reader is chunking-independent (not just its
+-- batch view); `C14.atEof_eq`: at EOF it reports what `eofEvent` says about the residual.
+
+/-- **Byte-level refinement**: every run of the byte-level network, under any delivery schedule,
+is matched by a run of the message-level system with the same automaton states. -/
+theorem bytes_refine_msg (P : Params) (hv : ∀ d ∈ P.ds, validName d = true) (hj : P.junk = none)
+    (bs : List BMove) : ∃ sched, Rel (bexec P bs) (exec P sched) := bytes_refine P hv hj bs
+
+/-- **Agreement at byte granularity, for every chunking/delivery schedule**: whenever a side of
+the byte-level network has finished, its result is `ds.find? (· ∈ ls)` resp. `Failed`;
+so if both have finished they agree. -/
+theorem bytes_agree (P : Params) (hv : ∀ d ∈ P.ds, validName d = true) (hj : P.junk = none)
+    (bs : List BMove) :
+    (∀ rl, (bexec P bs).l = .done rl → rl = expected P.ds P.ls) ∧
+    (∀ rd, (bexec P bs).started = true → (bexec P bs).d = .done rd → rd = expected P.ds P.ls) := by
+  obtain ⟨sched, hrel⟩ := bytes_refine P hv hj bs
+  refine ⟨?_, ?_⟩
+  · intro rl h
+    exact listener_outcome P hv sched rl (by rw [← hrel.hl]; exact h)
+  · intro rd hs h
+    exact dialer_outcome P hv sched rd (by rw [← hrel.hs]; exact hs) (by rw [← hrel.hd]; exact h)
+
+/-! ## 6. summary -/
 
 /-- the property at full strength: for every input, the byte-level network — and, beyond what
 is expressed here, every chunking/readiness schedule of it — satisfies the Spec -/
@@ -339,3 +372,8 @@ end C14
 #print axioms C14.listener_reads_exactly
 #print axioms C14.runBytes_exact
 #print axioms C14.agree_partial
+#print axioms C14.pollNext_refines
+#print axioms C14.reader_chunk_independent
+#print axioms C14.atEof_eq
+#print axioms C14.bytes_refine_msg
+#print axioms C14.bytes_agree
